@@ -860,23 +860,12 @@ def semOKTCases (P : GExpr → Bool) : List GTCase → Names → Bool
   | .mk _ b :: rest, live => semOK P b live && semOKTCases P rest live
 end
 
-/-- the static type the backend annotated an expression with -/
-def staticTy : GExpr → GTy
-  | .nil t | .voidv t | .unitv t | .var _ t | .int _ t | .float _ t | .call t _ _ | .un _ t _
-  | .bin _ t _ _ | .field _ t _ | .index t _ _ | .cast t _ | .slit t _ | .alit t _ | .blocke t _ _ => t
-  | .bool _ => .bool
-  | .str _ => .string
-
-def isPtrTy : GTy → Bool
-  | .ptr _ => true
-  | _ => false
-
 mutual
 /-- an expression whose evaluation can neither fail nor touch the world, judged syntactically:
     literals, variables, `-`, `!`, the non-dividing binary operators and struct / array literals
-    of such (a slice literal allocates its backing array in `Go.Sem`'s heap).  With `allowField` also `e.f` where the annotated type of `e` is not a pointer — sound
-    only as far as the annotations are (a struct value is never nil); `Go.Sem` is untyped, so this
-    case is validated, not proved. -/
+    of such (a slice literal allocates its backing array in `Go.Sem`'s heap).  With `allowField` also `e.f` where the annotated type of `e` is not a pointer: a
+    struct value is never nil, and `Go.Sem` has no rule for a nil value of a non-pointer static type
+    (`stuck`, not the nil-dereference panic), so this case is proved too (`inertSyn_sound`). -/
 def inertSyn (allowField : Bool) : GExpr → Bool
   | .var _ _ | .nil _ | .voidv _ | .unitv _ | .bool _ | .float _ _ | .str _ => true
   | .int text _ => text.toInt?.isSome
@@ -946,7 +935,7 @@ end
 def fnDceOK (f : GFunc) : Bool :=
   !(f.params.map (·.1)).contains "_" &&
   (scopeErrs (localsOf f) (f.params.map (·.1)) f.body).isEmpty &&
-  shapeOK f.body && semOK (inertSyn false) f.body []
+  shapeOK f.body && semOK (inertSyn true) f.body []
 
 /-- a file: every function satisfies `fnDceOK`, function names are pairwise distinct (as Go requires) -/
 def fileDceOK (F : GFile) : Bool :=
